@@ -46,6 +46,8 @@ pub(super) struct AluKey {
     a: u32,
     b: u32,
     c: u32,
+    /// Accumulator of a `HornerAcc` op (carried in `intermediate_out`); `None` otherwise.
+    acc: Option<u32>,
 }
 
 impl AluKey {
@@ -57,20 +59,32 @@ impl AluKey {
                 a: a.0.min(b.0),
                 b: a.0.max(b.0),
                 c: 0,
+                acc: None,
             },
             AluOpKind::BoolCheck => Self {
                 kind,
                 a: a.0,
                 b: b.0,
                 c: 0,
+                acc: None,
             },
             AluOpKind::MulAdd | AluOpKind::HornerAcc => Self {
                 kind,
                 a: a.0,
                 b: b.0,
                 c: c.unwrap_or(WitnessId(0)).0,
+                acc: None,
             },
         }
+    }
+
+    /// Distinguishes `HornerAcc` ops by their accumulator: `out = acc * b + c - a` depends on it.
+    pub(super) const fn with_acc(mut self, acc: Option<WitnessId>) -> Self {
+        self.acc = match acc {
+            Some(w) => Some(w.0),
+            None => None,
+        };
+        self
     }
 }
 
